@@ -252,3 +252,68 @@ def chunking_groups(cases_path, impl_path):
             elif i != first[g][1]:
                 bad.append((n + 1, c.rstrip("\n"), i.rstrip("\n"), f"call-back trace differs from that of the single push of the same stream (case line {first[g][0]})"))
     return bad
+
+def c02_judge(case, impl_line):
+    """C02 predicate on the implementation's trace: per elementary PID, the bytes from one packet-begin to the
+    next (payload exposed by the header + continuation slices) equal the multiplexed PES payloads, in order;
+    with deep observation also stream id and PTS/DTS."""
+    toks = case.split()
+    deep = int(toks[1]) & 1
+    truth = {}
+    for t in toks:
+        if t.startswith("#P"):
+            pid, lst = t[2:].split("=", 1)
+            ents = []
+            for e in [x for x in lst.split(";") if x]:
+                sid, pts, dts, hx = e.split(":")
+                ents.append((int(sid), int(pts), int(dts), unhex(hx)))
+            truth[int(pid)] = ents
+    data = b"".join(unhex(t) for t in toks[3:] if not t.startswith("#"))
+    nums = parse_obs(impl_line)
+    if nums is None: return "implementation panicked"
+    try: ev = parse_events(nums)
+    except Exception as x: return f"undecodable observation ({x})"
+    r = es_protocol_ok(ev)
+    if r: return r
+    serial_pid = {}
+    for e in ev:
+        if e[0] == "construct" and e[2][0] == "bystream": serial_pid[e[1]] = e[2][3]
+    got = {}      # pid -> list of [sid, pts, dts, bytes]
+    for e in ev:
+        if e[0] != "es": continue
+        pid = serial_pid.get(e[1])
+        if pid is None: return f"elementary-stream call-back from handler {e[1]} that was not built for a stream"
+        if e[2] == "ccerr": return f"continuity error reported on PID {pid} of a well-formed stream"
+        if e[2] == "begin":
+            o = list(e[3]); kind = o[0]
+            if kind == 0: return f"PID {pid}: packet-begin with unparsable header contents in a well-formed stream"
+            off, ln = o[1], o[2]
+            if off + ln > len(data): return f"PID {pid}: payload slice outside the pushed buffer"
+            rec = [None, None, None, bytearray(data[off:off + ln])]
+            if deep:
+                full = o[3:]
+                rec[0] = full[0]
+                if full[2] == 1:                         # parsed contents: prio al cp oc, then pts_dts
+                    q = full[3 + 4:]
+                    if q[0] == 0:
+                        if q[1] == 1 and q[2] == 0: rec[1] = q[3]
+                        elif q[1] == 2 and q[2] == 0 and q[4] == 0: rec[1] = q[3]; rec[2] = q[5]
+            got.setdefault(pid, []).append(rec)
+        elif e[2] == "cont":
+            off, ln = e[3], e[4]
+            if pid not in got: return f"PID {pid}: continuation data before any packet-begin"
+            if off + ln > len(data): return f"PID {pid}: continuation slice outside the pushed buffer"
+            got[pid][-1][3] += data[off:off + ln]
+    for pid, ents in truth.items():
+        g = got.get(pid, [])
+        if len(g) != len(ents): return f"PID {pid}: {len(g)} PES packets begun, {len(ents)} multiplexed"
+        for k, ((sid, pts, dts, pl), rec) in enumerate(zip(ents, g)):
+            if bytes(rec[3]) != pl:
+                return f"PID {pid} PES packet {k}: delivered {len(rec[3])} bytes differ from the {len(pl)} multiplexed payload bytes"
+            if deep:
+                if rec[0] != sid: return f"PID {pid} PES packet {k}: stream id {rec[0]} reported, {sid} multiplexed"
+                if pts >= 0 and rec[1] != pts: return f"PID {pid} PES packet {k}: PTS {rec[1]} reported, {pts} multiplexed"
+                if dts >= 0 and rec[2] != dts: return f"PID {pid} PES packet {k}: DTS {rec[2]} reported, {dts} multiplexed"
+    for pid in got:
+        if pid not in truth: return f"elementary-stream data attributed to PID {pid} which carries none"
+    return None
